@@ -2,7 +2,7 @@
 From Coq Require Import Permutation.
 From CR Require Import Base Atomic Machine LinksFacts HeapFacts TraceFacts TraceTotal Local StackBound
   Termination Perm StdRc StdRefine Tokens InvDef InvLemmas ActBase ActHandles ActAdopt ActMove ActConsume
-  StepFrames StepPanic Purge GroupOps DropDec Group DropLast StepInv RunInv Consequences Common.
+  StepFrames StepPanic Purge GroupOps DropDec Group DropLast StepInv RunInv Consequences PidInv Common.
 Local Open Scope N_scope.
 
 (** no step of a disciplined run reads or writes a released allocation, a
@@ -53,3 +53,23 @@ Theorem C02_weak_drop_frees_exactly_at_zero :
                  else with_weak b (weak b - 1)).
 Proof. exact weak_drop_spec. Qed.
 Print Assumptions C02_weak_drop_frees_exactly_at_zero.
+
+(** the destructor of each stored value runs at most once — for EVERY history,
+    disciplined or not, every oracle, with panics: the destructor log of a whole
+    history has no duplicate, and a destroyed value is stored nowhere *)
+Theorem C02_destructor_at_most_once :
+  forall fuel h, NoDup (dtor_log (fst (run_history fuel init_state h))).
+Proof. exact history_dtor_at_most_once. Qed.
+Print Assumptions C02_destructor_at_most_once.
+
+Theorem C02_destructor_at_most_once_every_configuration :
+  forall pri c c', PidInv (st c) (stack c) -> step pri c = Running c' -> PidInv (st c') (stack c').
+Proof. exact step_pid. Qed.
+Print Assumptions C02_destructor_at_most_once_every_configuration.
+
+Theorem C02_destroyed_value_is_stored_nowhere :
+  forall s k x, PidInv s k -> In x (dtor_log s) ->
+  (forall o b p, nth_error (heap_of s) o = Some b -> value b = Some p -> pid p <> x) /\
+  (forall r p, reg_get s r = RLoose p -> pid p <> x).
+Proof. exact destroyed_not_stored. Qed.
+Print Assumptions C02_destroyed_value_is_stored_nowhere.
